@@ -138,7 +138,7 @@ func run(t *topo, recvFirst bool) {
 			r := r
 			rcalls = append(rcalls, kit.Start(fmt.Sprintf("RecvLoop:%d", r), func() (interface{}, error) {
 				for i := 0; i < want; i++ {
-					b, err := socks[r].Recv()
+					b, err := kit.Recv(socks[r])
 					if err != nil {
 						return nil, err
 					}
@@ -182,7 +182,7 @@ func run(t *topo, recvFirst bool) {
 		}
 		got := append([]string{}, early[r]...)
 		for {
-			c := kit.Start(fmt.Sprintf("Recv:%d", r), func() (interface{}, error) { b, err := socks[r].Recv(); return string(b), err })
+			c := kit.Start(fmt.Sprintf("Recv:%d", r), func() (interface{}, error) { b, err := kit.Recv(socks[r]); return string(b), err })
 			kit.Quiesce()
 			if !c.Done() {
 				break
@@ -264,7 +264,7 @@ func payloads() {
 			continue
 		}
 		for i, b := range seq {
-			cl := kit.Start(fmt.Sprintf("Recv:%d", r), func() (interface{}, error) { x, err := socks[r].Recv(); return string(x), err })
+			cl := kit.Start(fmt.Sprintf("Recv:%d", r), func() (interface{}, error) { x, err := kit.Recv(socks[r]); return string(x), err })
 			kit.Quiesce()
 			if !cl.Done() || cl.Err != nil {
 				kit.Failf("payload-missing", "%s: member %d: message %d of the sequence (%d bytes, %q) was not delivered: Recv done=%v %s", []string{"bus", "star"}[kind], r, i, len(b), clipq(b), cl.Done(), kit.ErrName(cl.Err))
@@ -280,7 +280,7 @@ func payloads() {
 			}
 		}
 	}
-	cl := kit.Start("Recv:sender", func() (interface{}, error) { x, err := socks[sender].Recv(); return string(x), err })
+	cl := kit.Start("Recv:sender", func() (interface{}, error) { x, err := kit.Recv(socks[sender]); return string(x), err })
 	kit.Quiesce()
 	if cl.Done() {
 		kit.Failf("echo-to-sender", "the sender received %q / %s", cl.Val, kit.ErrName(cl.Err))
@@ -345,7 +345,7 @@ func starChain() {
 		if dist < 0 {
 			dist = -dist
 		}
-		rc := kit.Start(fmt.Sprintf("Recv:%d", r), func() (interface{}, error) { x, err := socks[r].Recv(); return string(x), err })
+		rc := kit.Start(fmt.Sprintf("Recv:%d", r), func() (interface{}, error) { x, err := kit.Recv(socks[r]); return string(x), err })
 		kit.Quiesce()
 		if dist <= limit {
 			if !rc.Done() || rc.Err != nil || rc.Val.(string) != "along-the-chain" {
@@ -354,7 +354,7 @@ func starChain() {
 			if dist == limit || dist == c.n-1 {
 				kit.Count("far-end-reached-at-exact-limit")
 			}
-			r2 := kit.Start(fmt.Sprintf("Recv2:%d", r), func() (interface{}, error) { x, err := socks[r].Recv(); return string(x), err })
+			r2 := kit.Start(fmt.Sprintf("Recv2:%d", r), func() (interface{}, error) { x, err := kit.Recv(socks[r]); return string(x), err })
 			kit.Quiesce()
 			if r2.Done() {
 				kit.Failf("duplicate", "chain of %d: the member %d hop(s) away received a second message %q / %s", c.n, dist, r2.Val, kit.ErrName(r2.Err))
@@ -390,7 +390,7 @@ func xstarRaw() {
 	}
 	for i, l := range leaves {
 		l := l
-		rc := kit.Start(fmt.Sprintf("Recv:leaf%d", i), func() (interface{}, error) { b, err := l.Recv(); return string(b), err })
+		rc := kit.Start(fmt.Sprintf("Recv:leaf%d", i), func() (interface{}, error) { b, err := kit.Recv(l); return string(b), err })
 		kit.Quiesce()
 		if i == 0 {
 			if rc.Done() {
@@ -401,7 +401,7 @@ func xstarRaw() {
 		if !rc.Done() || rc.Err != nil || rc.Val.(string) != "hello" {
 			kit.Failf("missing", "leaf %d: done=%v %s %q", i, rc.Done(), kit.ErrName(rc.Err), rc.Val)
 		}
-		r2 := kit.Start(fmt.Sprintf("Recv2:leaf%d", i), func() (interface{}, error) { b, err := l.Recv(); return string(b), err })
+		r2 := kit.Start(fmt.Sprintf("Recv2:leaf%d", i), func() (interface{}, error) { b, err := kit.Recv(l); return string(b), err })
 		kit.Quiesce()
 		if r2.Done() {
 			kit.Failf("duplicate", "leaf %d received a second copy %q / %s", i, r2.Val, kit.ErrName(r2.Err))
